@@ -13,21 +13,21 @@ from cxxheaderparser.simple import parse_file, parse_string
 TECHNIQUE = "Lean 4: specification theorems for the gcc/pcpp line-marker filters over every segmentation (keep exactly the main file's segments; exact quoted-name match); correspondence on synthetic and real preprocessor output; end-to-end include-graph oracle"
 LEAN_TARGET = "CxxModel.Props.C19"
 THEOREMS = ["Cxx.C19_gcc_filter_spec", "Cxx.C19_pcpp_filter_spec", "Cxx.C19_gcc_marker_exact", "Cxx.C19_pcpp_marker_exact",
-            "Cxx.segFilter_spec"]
+            "Cxx.C19_msvc_filter_spec", "Cxx.C19_msvc_marker_exact", "Cxx.segFilter_spec"]
 ANCHORS = ["preprocessor.py:", "dump.py:", "lexer.py:PlyLexer.t_PP_DIRECTIVE"]
 RULE = ("include graphs over generated file names (names that are suffixes/prefixes of one another, sub-directories, blanks), "
         "depth <= 3, macro-only includes, both back ends present in the sandbox (pcpp, g++), retain_all_content on/off, "
         "depfile; plus synthetic marker-segmented outputs for the filter correspondence; non-trivial = main file includes "
         "at least one file whose name is related to its own")
 CARRIED_BY = {
-    "filter keeps exactly the main file's segments, in order": "theorems C19_gcc_filter_spec, C19_pcpp_filter_spec (every segmentation)",
-    "main-file test is equality of the quoted name, whatever files are called": "theorems C19_gcc_marker_exact, C19_pcpp_marker_exact",
-    "model filters = _gcc_filter/_pcpp_filter": "correspondence `ppfilter` on synthetic and real preprocessor outputs",
+    "filter keeps exactly the main file's segments, in order": "theorems C19_gcc_filter_spec, C19_pcpp_filter_spec, C19_msvc_filter_spec (every segmentation)",
+    "main-file test is equality of the quoted name, whatever files are called": "theorems C19_gcc_marker_exact, C19_pcpp_marker_exact, C19_msvc_marker_exact",
+    "model filters = _gcc_filter/_pcpp_filter/_msvc_filter": "correspondence `ppfilter` on synthetic and real preprocessor outputs, `ppfilter[msvc]` on synthetic MSVC-format output",
     "end to end with real pcpp / g++ (declarations, line numbers, retain_all_content, depfile)": "oracle `include_graphs` (not proof)",
     "a preprocessor function carries nothing from one file to the next": "oracle `preprocessor_history` (not proof)",
 }
 ASSUMPTIONS = ["g++/pcpp output is marker-segmented (recorded assumption)", "cl.exe absent: MSVC filter exercised on synthetic MSVC-format output only"]
-MODEL_COVERAGE = "_gcc_filter, _pcpp_filter (PPFilter.lean); _msvc_filter by oracle only"
+MODEL_COVERAGE = "_gcc_filter, _pcpp_filter, _msvc_filter (PPFilter.lean)"
 NAMES = ["a.h", "xa.h", "a.hpp", "a.h.in", "sub/a.h", "sub/xa.h", "b.h", "my a.h", "dir x/a.h", "aa.h", "a.hh", "sub/sub2/a.h", "main.h", "amain.h"]
 
 
@@ -254,16 +254,40 @@ def run(ctx):
             if e != m:
                 mism.append({"input": {"kind": k, "fname": f, "lines": ls}, "diff": "impl kept %r, model kept %r" % (e[:200], m[:200])})
         ctx.corr("ppfilter", len(synth), mism)
-    # MSVC filter on synthetic output
+    # MSVC filter: model vs implementation on synthetic MSVC-format output (cl.exe is not available)
+    msynth = []
+    for _ in range(ctx.budget(150, 3000)):
+        pool = ["c:\\\\p\\\\a.h", "a.h", "d:\\\\x y\\\\a.h", "c:\\\\p\\\\xa.h", "c:\\\\p\\\\sub\\\\a.h", "b.h", "xa.h", "sub/a.h"]
+        main = rng.choice(pool)
+        lines = ['#line 1 "%s"\n' % main]
+        expect = []
+        keep = True
+        for _ in range(rng.randint(0, 6)):
+            if rng.random() < 0.5:
+                f = rng.choice(pool + [main, main])
+                l = '#line %d "%s"\n' % (rng.randint(1, 40), f)
+                keep = (f == main)
+            else:
+                l = rng.choice(["int x%d;\n" % rng.randint(0, 99), 'const char *s = "a.h";\n', "\n", "#pragma once\n"])
+            lines.append(l)
+            if keep:
+                expect.append(l)
+        msynth.append((lines, "".join(expect)))
     mfails = []
-    for _ in range(ctx.budget(100, 2000)):
-        main = rng.choice(["c:\\\\p\\\\a.h", "a.h", "d:\\\\x y\\\\a.h"])
-        other = rng.choice(["c:\\\\p\\\\xa.h", "c:\\\\p\\\\sub\\\\a.h", "b.h"])
-        text = '#line 1 "%s"\nint m1;\n#line 1 "%s"\nint o1;\n#line 3 "%s"\nint m2;\n' % (main, other, main)
-        out = PP._msvc_filter(io.StringIO(text))
-        if "o1" in out or "m1" not in out or "m2" not in out:
-            mfails.append({"input": text, "diff": "msvc filter kept %r" % out})
-    ctx.oracle("msvc_synthetic", ctx.budget(100, 2000), mfails)
+    for lines, expect in msynth:
+        out = PP._msvc_filter(io.StringIO("".join(lines)))
+        if out != expect:
+            mfails.append({"input": "".join(lines), "diff": "msvc filter kept %r, expected %r (segments of the file named by the first #line)" % (out, expect)})
+    ctx.oracle("msvc_synthetic", len(msynth), mfails)
+    if ctx.driver is not None:
+        res = ctx.driver.run([{"op": "ppfilter", "kind": "msvc", "fname": "", "lines": ls} for ls, _ in msynth])
+        mism = []
+        for (ls, _), r in zip(msynth, res):
+            e = PP._msvc_filter(io.StringIO("".join(ls)))
+            m = "".join(r.get("out", ["<assert>"]))
+            if e != m:
+                mism.append({"input": {"kind": "msvc", "lines": ls}, "diff": "impl kept %r, model kept %r" % (e[:200], m[:200])})
+        ctx.corr("ppfilter[msvc]", len(msynth), mism)
 
 
 def replay(path):
